@@ -2,6 +2,7 @@
 // stubs for what the extracted text calls but the unit does not contain.
 use vstd::prelude::*;
 use vstd::arithmetic::power::pow;
+use vstd::arithmetic::div_mod::*;
 
 verus! {
 
@@ -26,6 +27,16 @@ impl PartialEq for ValueObj {
     #[verifier::external_body]
     fn eq(&self, other: &Self) -> bool { unimplemented!() }
 }
+
+// ---- eval.rs context stubs (R1/R3): the evaluator context and its error values are opaque ----
+pub struct Context { pub _p: Opaque }
+// @trusted: R3 diagnostics: error values are opaque (message text is not part of any contract)
+#[verifier::external_body]
+pub struct EvalErrors { _p: core::marker::PhantomData<()> }
+pub type EvalResult<T> = Result<T, EvalErrors>;
+// @trusted: R3 construction of an error value (EvalError::unreachable / feature_error!): result unspecified
+#[verifier::external_body]
+fn ext_eval_error() -> EvalErrors { unimplemented!() }
 
 // ---- specification: value of an integer-like constant, Python operators ----------------
 pub open spec fn is_intlike(v: ValueObj) -> bool { v is Int || v is Nat }
@@ -86,6 +97,110 @@ proof fn lemma_py_floor_characterisation(a: int, b: int)
         vstd::arithmetic::div_mod::lemma_fundamental_div_mod(-a, -b);
         vstd::arithmetic::div_mod::lemma_mod_bound(-a, -b);
         assert(b * ((-a) / (-b)) == -((-b) * ((-a) / (-b)))) by (nonlinear_arith);
+    }
+}
+
+
+pub broadcast proof fn lemma_py_mod_pos(a: int, b: int)
+    ensures b > 0 ==> #[trigger] py_mod(a, b) == a % b
+{
+    if b > 0 { lemma_fundamental_div_mod(a, b); }
+}
+
+// ---- floor quotient / remainder: characterisation, uniqueness, and Rust's truncating / and % ----
+// checked_floordiv_i32 / checked_floormod_i32 (value.rs) are verified against the characterisations
+// below; lemma_floor_*_unique prove that the characterisation determines Python's // and % uniquely;
+// lemma_trunc* relate vstd's specification of Rust's truncating division (rust_div / rust_rem) to it.
+pub open spec fn is_floor_quot(l: int, r: int, v: int) -> bool {
+    r != 0 && (r > 0 ==> 0 <= l - r * v < r) && (r < 0 ==> r < l - r * v <= 0)
+}
+pub open spec fn abs_int(r: int) -> int { if r >= 0 { r } else { -r } }
+pub open spec fn is_floor_rem(l: int, r: int, m: int) -> bool {
+    r != 0 && (r > 0 ==> 0 <= m < r) && (r < 0 ==> r < m <= 0) && (l - m) % abs_int(r) == 0
+}
+pub broadcast proof fn lemma_floor_quot_unique(l: int, r: int, v: int)
+    ensures #[trigger] is_floor_quot(l, r, v) ==> v == py_floordiv(l, r)
+{
+    if is_floor_quot(l, r, v) {
+        if r > 0 {
+            let m = l - r * v;
+            assert(l == v * r + m) by (nonlinear_arith) requires m == l - r * v;
+            lemma_fundamental_div_mod_converse(l, r, v, m);
+        } else {
+            let m = -(l - r * v);
+            assert(-l == v * (-r) + m) by (nonlinear_arith) requires m == -(l - r * v);
+            lemma_fundamental_div_mod_converse(-l, -r, v, m);
+        }
+    }
+}
+pub broadcast proof fn lemma_floor_rem_unique(l: int, r: int, m: int)
+    ensures #[trigger] is_floor_rem(l, r, m) ==> m == py_mod(l, r)
+{
+    if is_floor_rem(l, r, m) {
+        let a = abs_int(r);
+        let k = (l - m) / a;
+        lemma_fundamental_div_mod(l - m, a);
+        assert(l - m == a * k);
+        let v = if r > 0 { k } else { -k };
+        assert(l - m == r * v) by (nonlinear_arith) requires l - m == a * k, a == abs_int(r), v == (if r > 0 { k } else { -k }), r != 0;
+        assert(is_floor_quot(l, r, v));
+        lemma_floor_quot_unique(l, r, v);
+    }
+}
+
+proof fn lemma_negdiv(x: int, y: int)
+    requires y < 0
+    ensures x % y == x % (-y), x / y == -(x / (-y))
+{
+    lemma_fundamental_div_mod(x, y);
+    let q = -(x / y); let r = x % y;
+    assert(x == q * (-y) + r) by(nonlinear_arith) requires x == y * (x / y) + x % y, q == -(x/y), r == x % y;
+    lemma_fundamental_div_mod_converse(x, -y, q, r);
+}
+proof fn lemma_trunc(l: int, r: int)
+    requires r != 0
+    ensures l == r * rust_div(l, r) + rust_rem(l, r),
+            -abs_int(r) < rust_rem(l, r) < abs_int(r),
+            l >= 0 ==> rust_rem(l, r) >= 0,
+            l <= 0 ==> rust_rem(l, r) <= 0,
+            -abs_int(l) <= rust_div(l, r) <= abs_int(l),
+            abs_int(r) >= 2 ==> -(abs_int(l) / 2) <= rust_div(l, r) <= abs_int(l) / 2,
+{
+    let a = abs_int(l);
+    lemma_fundamental_div_mod(a, r);
+    if r < 0 { lemma_negdiv(a, r); lemma_mod_bound(a, -r); } else { lemma_mod_bound(a, r); }
+    if l == 0 { if r > 0 { lemma_small_mod(0, r as nat); } else { lemma_small_mod(0, (-r) as nat); } }
+    if r < 0 { lemma_div_pos_is_pos(a, -r); lemma_div_is_ordered_by_denominator(a, 1, -r); lemma_div_basics_3(a); } else { lemma_div_pos_is_pos(a, r); lemma_div_is_ordered_by_denominator(a, 1, r); lemma_div_basics_3(a); }
+    if abs_int(r) >= 2 { lemma_div_is_ordered_by_denominator(a, 2, abs_int(r)); }
+    if l < 0 {
+        assert(l == r * (-(a / r)) + (-(a % r))) by (nonlinear_arith) requires a == r * (a / r) + a % r, l == -a;
+    }
+}
+proof fn lemma_trunc_i32(l: int, r: int)
+    ensures r != 0 ==> ({
+        let q = rust_div(l, r); let m = rust_rem(l, r);
+        &&& l == r * q + m
+        &&& -abs_int(r) < m < abs_int(r)
+        &&& (l >= 0 ==> m >= 0) && (l <= 0 ==> m <= 0)
+        &&& -abs_int(l) <= q <= abs_int(l)
+        &&& (abs_int(r) >= 2 ==> -(abs_int(l) / 2) <= q <= abs_int(l) / 2)
+        &&& r * (q - 1) == r * q - r
+        &&& (l - m) % abs_int(r) == 0
+        &&& (l - (m + r)) % abs_int(r) == 0
+    })
+{
+    if r != 0 {
+        lemma_trunc(l, r);
+        let q = rust_div(l, r); let m = rust_rem(l, r);
+        assert(r * (q - 1) == r * q - r) by (nonlinear_arith);
+        let a = abs_int(r);
+        let k = if r > 0 { q } else { -q };
+        assert(l - m == a * k) by (nonlinear_arith) requires l == r * q + m, a == abs_int(r), k == (if r > 0 { q } else { -q }), r != 0;
+        lemma_mod_multiples_basic(k, a);
+        assert(a * k == k * a) by (nonlinear_arith);
+        let k2 = if r > 0 { q - 1 } else { -q + 1 };
+        assert(l - (m + r) == k2 * a) by (nonlinear_arith) requires l == r * q + m, a == abs_int(r), k2 == (if r > 0 { q - 1 } else { -q + 1 }), r != 0;
+        lemma_mod_multiples_basic(k2, a);
     }
 }
 
